@@ -167,6 +167,11 @@ func Release(id uintptr) {
 	s.mu.unlock()
 }
 
+// GoID is the runtime id of the calling goroutine (for exactly-once oracles).
+//
+//go:norace
+func GoID() uint64 { return goid() }
+
 // Knob is the target of the simKnob hooks.
 //
 //go:norace
